@@ -127,7 +127,8 @@ Proof.
       apply negb_true_iff in G. apply Nat.ltb_ge in G. unfold rnd. cbn [fix_gate fixed andb] in G.
       destruct (tactive s); cbn [negb] in G; exact G.
     - left. destruct (if newest then rev (heldq s) else heldq s); reflexivity.
-    - left. unfold upd_cur. destruct (cur s); reflexivity. }
+    - left. unfold upd_cur. destruct (cur s); reflexivity.
+    - left; reflexivity. }
   destruct Q as [Q|Q]; [rewrite Q; exact P | right; exact Q].
 Qed.
 
